@@ -1,5 +1,5 @@
 //@unit C17_export
-//@props C17
+//@props C17 C11
 //@safetyprops C14
 //@desc The 14 exported functions of clipper.export.h under call-trace contracts (G5): every parameter reaches the parameter of the same meaning of the C++ object/function it is documented to forward to, invalid clip type / fill rule / precision are rejected with the documented negative code before any work is done, and the returned arrays are the marshalled results of exactly the C++ call.
 #include "vf.h"
@@ -57,10 +57,6 @@ VTok CRectToRect(VTok rect)
 LOG_REQ(FN_CRECT2RECT) LOG_ENS(FN_CRECT2RECT, rect.tok, 0,0,0,0,0, 0,0,0,0)
 __CPROVER_ensures(__CPROVER_return_value.tok == TOK(FN_CRECT2RECT, OC_(FN_CRECT2RECT)))
 __CPROVER_assigns(LOG_ASG(FN_CRECT2RECT));
-VTok ScaleRect(VTok rect, double scale)
-LOG_REQ(FN_SCALERECT) LOG_ENS(FN_SCALERECT, rect.tok, 0,0,0,0,0, scale,0,0,0)
-__CPROVER_ensures(__CPROVER_return_value.tok == TOK(FN_SCALERECT, OC_(FN_SCALERECT)))
-__CPROVER_assigns(LOG_ASG(FN_SCALERECT));
 VTok MinkowskiSum(VTok pattern, VTok path, bool is_closed)
 LOG_REQ(FN_MINKSUM) LOG_ENS(FN_MINKSUM, pattern.tok, path.tok, is_closed, 0,0,0, 0,0,0,0)
 __CPROVER_ensures(__CPROVER_return_value.tok == TOK(FN_MINKSUM, OC_(FN_MINKSUM)))
